@@ -3,6 +3,7 @@ from __future__ import annotations
 
 import json
 import os
+import re
 
 from .replay import native, sanitize, ROOT
 
@@ -23,7 +24,8 @@ def run_bounded(eng, prop: str, tier: str, repo: str, seed: int, known: list[dic
         for f in res.get("failures", []):
             kid = None
             for k in known:
-                if k.get("kind") == "bounded" and k.get("bounded_check") == spec["name"] and f.get("signature") in k.get("signatures", []):
+                pats = (k.get("bounded") or {}).get(spec["name"], [])
+                if any(re.fullmatch(p, f.get("signature", "")) for p in pats):
                     kid = k
                     break
             oid = f"bounded:{spec['name']} / {f.get('signature')}"
